@@ -197,6 +197,23 @@ fn gen_arg(rng: &mut Rng, info: &CmdInfo, crlf: bool) -> String {
     if crlf && rng.chance(1, 12) {
         return q(*rng.pick(&CRLF_TEXTS));
     }
+    if rng.chance(1, 14) {
+        // a multi-byte character spliced into an otherwise plain number or word, at one of its first positions (code
+        // that cuts a prefix off by byte offsets meets a character boundary it did not expect): `0\u{e9}x10`, `-\u{6f22}1`
+        let base = loop {
+            let b = if rng.chance(1, 2) { *rng.pick(&NUMBERS) } else { *rng.pick(&TEXTS) };
+            if !b.contains("${") && !b.contains('%') {
+                break b;
+            }
+        };
+        let chars: Vec<char> = base.chars().collect();
+        let at = rng.usize(chars.len().min(3) + 1);
+        let wide = *rng.pick(&['\u{e9}', '\u{6f22}', '\u{1f600}']);
+        let mut v: String = chars[..at].iter().collect();
+        v.push(wide);
+        v.extend(chars[at..].iter());
+        return q(&v);
+    }
     if !info.flags.is_empty() && rng.chance(1, 4) {
         let f = rng.pick(&info.flags).clone();
         if rng.chance(1, 6) {
